@@ -7,6 +7,7 @@ import (
 	"path/filepath"
 	"sort"
 	"strings"
+	"time"
 
 	kv "github.com/XiXi-2024/xixi-kv"
 	"github.com/XiXi-2024/xixi-kv/fio"
@@ -419,6 +420,12 @@ func (r *EngineRunner) continueImage(k int, root string, cfg []string, d1 map[st
 	}
 	key, _ := ParseTok(contKey)
 	val, _ := ParseTok(contVal)
+	// Batch ids are snowflake ids from a node created per batch: unique per millisecond only.  The
+	// harness replays a crash within microseconds of the original batch, which no real process
+	// restart can do: the "new process" starts at least 2 ms after the scenario's latest batch.
+	if dt := time.Since(r.lastBatch); dt < 2*time.Millisecond {
+		time.Sleep(2*time.Millisecond - dt)
+	}
 	b := db.NewBatch(kv.BatchOptions{})
 	id := b.VerifBatchID()
 	_ = b.Put(key, val)
